@@ -186,6 +186,31 @@ def walk_shape(ctx, crate, deltas):
     ctx.report(clause, fn + ":S→E→N→W", not bad, "for each delta the 8 push sites are, in dominance order: S corner, (k,0), E corner, (a,k), N corner, (a-k,a), W corner, (0,a-k)" if not bad else "mismatch: %s" % bad[:2], at=b.span, kind="N")
 
 
+def sorted_variant(ctx, crate):
+    """internal_edge_sorted: decided only for the idiom `sort(internal_edge(hash, delta))` (then the
+    result is the same set, increasing, by the contract of sort_unstable); any other implementation
+    is recorded as not decided rather than reported (no brittle proxy)."""
+    clause = "sorted-variant"
+    fn = "nested::Layer::internal_edge_sorted"; src = "nested::Layer::internal_edge"
+    b = ctx.anchor(crate, fn, clause)
+    if b is None: return
+    from rules.common import derives
+    e = Engine(crate, opaque={src}); r = e.run(fn); ctx.functions |= e.visited_fns
+    evs = [ev for ev in e.events.values() if len(ev.site) == 2]
+    srcs = [ev for ev in evs if ev.callee == src]
+    sorts = [ev for ev in evs if ev.callee and ("sort_unstable" in ev.callee or strip_generics(ev.callee).endswith("::sort"))]
+    if len(srcs) == 1 and len(sorts) == 1 and srcs[0].args == [param("hash"), param("delta_depth")] and r.returns:
+        rpo = b.rpo()
+        vec_ok = derives(e, sorts[0].args[0], srcs[0].ret) or any(derives(e, av, srcs[0].ret) for av in (sorts[0].argvals or []) if av is not None)
+        ret_ok = derives(e, r.ret, srcs[0].ret)
+        others = [ev for ev in evs if ev.callee and strip_generics(ev.callee).split("::")[-1] in ("push", "append", "insert", "truncate", "dedup", "remove", "swap")]
+        after = rpo.get(sorts[0].site[-1][1], 0)
+        ok = vec_ok and ret_ok and not others
+        ctx.report(clause, fn + ":=sort(internal_edge)", ok, "result = sort_unstable(internal_edge(hash, delta_depth)), no other mutation: same set, increasing" if ok else "the vector sorted / returned is not the one obtained from internal_edge, or is mutated otherwise", at=b.span)
+    else:
+        ctx.not_decided("internal_edge_sorted is not of the form sort(internal_edge(..)): its ordering arithmetic is not decided")
+
+
 def run(ctx):
     crate = ctx.crate("rel")
     deltas = list(range(0, 30)) if ctx.tier == "thorough" else [0, 1, 2, 8, 9, 16, 17, 29]
@@ -194,10 +219,11 @@ def run(ctx):
     dispatch(ctx, crate)
     domain(ctx, crate)
     walk_shape(ctx, crate, [d for d in deltas if d >= 1])
+    sorted_variant(ctx, crate)
     try:
         from rules import c14_tables
         c14_tables.run(ctx, crate)
     except ImportError:
         pass
-    ctx.not_decided("internal_edge_sorted's index arithmetic (k0..k3, lim bit tricks); duplicates in the external edge; loop bounds 1..am1 of internal_edge (exclusive of corners) are checked only through the pushed forms")
+    ctx.not_decided("duplicates in the external edge; loop bounds 1..am1 of internal_edge (exclusive of corners) are checked only through the pushed forms")
     ctx.assume("C18: the z-order curve selected for delta_depth is the bit interleave (the helpers are evaluated through the real implementations, devirtualised from get_zoc's static)")
